@@ -49,7 +49,9 @@ def handler(job):
         for op, ds in job["ops"]:
             X = data(ds)
             before = [x.tobytes() for x in X]
-            if op == 1:
+            if op == 4:
+                est.set_params(num_steps=est.num_steps); outs = []       # scikit-learn's set_params on a parameter other than the bounds (same value)
+            elif op == 1:
                 est.fit(X); outs = []
             elif op == 2:
                 outs = [[ds, dig(est.transform(X))]]
